@@ -38,7 +38,13 @@ pub struct SlowCase {
 }
 
 fn message(seq: usize, size: usize) -> Frames {
-    vec![format!("t{:06}", seq).into_bytes(), fill(seq as u32, size)]
+    let body = fill(seq as u32, size);
+    match seq % 7 {
+        // repeated frames / empty frames: what reaches a subscriber must still be WHOLE messages
+        3 => vec![format!("t{:06}", seq).into_bytes(), body.clone(), body],
+        5 => vec![format!("t{:06}", seq).into_bytes(), vec![], body, vec![]],
+        _ => vec![format!("t{:06}", seq).into_bytes(), body],
+    }
 }
 
 fn seq_of(m: &Frames) -> Option<usize> {
@@ -141,8 +147,7 @@ pub fn slow_outcome(c: &SlowCase) -> Outcome {
                 }
                 let size = SIZES[*szi as usize % SIZES.len()];
                 let m = message(k, size);
-                // encoded size: tag frame (2 + 7) + payload frame (2 or 9 + size)
-                max_enc = max_enc.max(9 + size + if size > 255 { 9 } else { 2 });
+                max_enc = max_enc.max(refcodec::encode_message(&m).len());
                 // (1) non-blocking: the send completes without any window action
                 let a = sim.send(s, &m);
                 match sim.run(a).await {
